@@ -24,12 +24,13 @@ T_ro   == <<114, 101, 115, 116, 58, 111, 39, 98>>                         \* res
 T_ea   == <<101, 109, 97, 105, 108, 58, 97, 64, 99, 46, 100>>             \* email:a@c.d
 T_eo   == <<101, 109, 97, 105, 108, 58, 111, 39, 98, 64, 99, 46, 100>>    \* email:o'b@c.d (what the validator makes of o'b@c.d)
 R_RY   == <<82, 69, 83, 84, 58, 89>>                                      \* REST:Y
+T_geo  == <<103, 101, 111, 58, 120>>                                      \* geo:x       (a namespace nobody reserves)
 NS_rest  == <<114, 101, 115, 116>>
 NS_email == <<101, 109, 97, 105, 108>>
 NSs == {NS_rest, NS_email}
 
 RawVocab == {T_ab, <<32, 65, 98, 32>> (* " Ab " *), <<97>> (* a *), <<95, 97, 98>> (* _ab *), T_rx,
-             R_RY, T_ro, T_ea, T_eo, <<NULLCH>>}
+             R_RY, T_ro, T_ea, T_eo, <<NULLCH>>, T_geo}
 SmallVocab == {T_ab, T_rx, R_RY}
 PairVocab == IF Small THEN {T_ab, <<32, 65, 98, 32>>, T_rx, T_ea, T_eo, <<NULLCH>>} ELSE RawVocab \ {<<97>>, <<95, 97, 98>>}
 RawLists == {<<>>} \cup [1..1 -> RawVocab] \cup [1..2 -> PairVocab] \cup [1..3 -> SmallVocab]
@@ -59,11 +60,11 @@ Init == /\ imm \in SUBSET NSs
 \* user.go:72-81 / init_topic.go:573-577: tags given at creation time
 Create(raw) ==
   /\ act.kind = "init"
-  /\ LET n == NormalizeTags(raw, MaxCount) IN
-       IF ~n.nil /\ ~RestrictedEqual(n.tags, <<>>, imm)
+  /\ LET r == CreateTags(raw, imm, MaxCount) IN
+       IF r.code = "denied"
        THEN /\ UNCHANGED <<stored, cache>>
             /\ act' = [kind |-> "create", code |-> "denied", readd |-> FALSE]
-       ELSE /\ stored' = n.tags /\ cache' = n.tags
+       ELSE /\ stored' = r.tags /\ cache' = r.tags
             /\ act' = [kind |-> "create", code |-> "ok", readd |-> FALSE]
   /\ UNCHANGED <<imm, msk, creds>>
 
@@ -114,6 +115,10 @@ ImmutableNsUntouchable ==
 RejectedChangesNothing ==
   [][act'.kind \in {"create", "set"} /\ act'.code # "ok" => stored' = stored /\ cache' = cache]_vars
 
+\* a creation request carrying a tag of an immutable namespace is refused (so the tag is not stored)
+CreationStoresNoReservedTag ==
+  act.kind = "create" => \A ns \in imm : NsTags(ToSet(stored), ns) = {}
+
 \* after every step the live topic's cache holds exactly the stored tags
 CacheEqualsStored == ToSet(cache) = ToSet(stored)
 
@@ -141,5 +146,7 @@ NeverSetDenied == ~(act.kind = "set" /\ act.code = "denied")
 NeverSetOkWithImmutable == ~(act.kind = "set" /\ act.code = "ok" /\ \E ns \in imm : NsTags(ToSet(stored), ns) # {})
 NeverDelCredRemovesTag == ~(act.kind = "delcred" /\ act.code = "ok")
 NeverDelCredOfLastTag == ~(act.kind = "delcred" /\ stored = <<>> /\ act.code # "noaction")
+NeverCreateDenied == ~(act.kind = "create" /\ act.code = "denied")
+NeverCreateWithMaskedOnlyTag == ~(act.kind = "create" /\ act.code = "ok" /\ \E ns \in msk \ imm : NsTags(ToSet(stored), ns) # {})
 NeverReaddAttempt == ~(act.kind = "set" /\ act.readd /\ creds = {})
 =============================================================================
